@@ -47,6 +47,9 @@ def gen_cases(tier: str, seed: int) -> List[Dict[str, Any]]:
         for j, (fn, what) in enumerate(REJECTS):
             cases.append({"kind": "reject", "fn": fn, "what": what,
                           "seed": derive_seed(seed, PROPERTY, "rej", r, j) % (2**31)})
+            if fn in ("cross_entropy", "mse_loss") or (fn, what) == ("silu", "inplace"):
+                # the same unsupported argument handed over POSITIONALLY (all arguments up to it given by position)
+                cases.append(dict(cases[-1], form="positional"))
     return cases
 
 
@@ -173,7 +176,7 @@ def run_reject(case: Dict[str, Any], ctx) -> None:
     x = rn(5, 7)
     expect_honoured = False
     if (fn, what) == ("silu", "inplace"):
-        u = lambda: U.silu(x.clone(), inplace=True)
+        u = (lambda: U.silu(x.clone(), inplace=True)) if case.get("form") != "positional" else _positional(U.silu, (x.clone(),), {"inplace": True})
         w, wo = F.silu(x.clone(), inplace=True), F.silu(x)
     elif (fn, what) == ("dropout", "inplace"):
         def u():
@@ -206,7 +209,7 @@ def run_reject(case: Dict[str, Any], ctx) -> None:
         cw = torch.rand(5, generator=g, dtype=torch.float64) + 0.5
         kw = {"weight": {"weight": cw}, "size_average": {"size_average": False}, "reduce": {"reduce": False},
               "label_smoothing": {"label_smoothing": 0.1}, "reduction_none": {"reduction": "none"}}[what]
-        u = lambda: U.cross_entropy(logits, tgt, **kw)
+        u = (lambda: U.cross_entropy(logits, tgt, **kw)) if case.get("form") != "positional" else _positional(U.cross_entropy, (logits, tgt), kw)
         import warnings
         with warnings.catch_warnings():
             warnings.simplefilter("ignore")
@@ -215,7 +218,7 @@ def run_reject(case: Dict[str, Any], ctx) -> None:
         a, b = rn(4, 6), rn(4, 6)
         kw = {"size_average": {"size_average": False}, "reduce": {"reduce": False},
               "reduction_none": {"reduction": "none"}}[what]
-        u = lambda: U.mse_loss(a, b, **kw)
+        u = (lambda: U.mse_loss(a, b, **kw)) if case.get("form") != "positional" else _positional(U.mse_loss, (a, b), kw)
         import warnings
         with warnings.catch_warnings():
             warnings.simplefilter("ignore")
@@ -252,8 +255,10 @@ def run_reject(case: Dict[str, Any], ctx) -> None:
     else:
         raise AssertionError((fn, what))
     ctx.count("reject:evaluated")
-    ctx.nontrivial(f"reject|{fn}|{what}")
-    key = f"C01:{fn}:argument-{what}"
+    if case.get("form") == "positional":
+        ctx.count("reject:positional-form")
+    ctx.nontrivial(f"reject|{fn}|{what}|{case.get('form', 'keyword')}")
+    key = f"C01:{fn}:argument-{what}" + (":given-positionally" if case.get("form") == "positional" else "")
     try:
         y = u()
     except Exception as e:
@@ -277,6 +282,19 @@ def run_reject(case: Dict[str, Any], ctx) -> None:
                       f"residual against the reference with it: {res:.2e}")
     else:
         ctx.violation(key + ":wrong-result", f"neither honoured (res {res:.2e}) nor rejected")
+
+
+def _positional(f, args, kw):
+    """the call f(*args, **kw) rewritten with every argument up to the last keyword one passed by position"""
+    import inspect
+
+    sig = inspect.signature(f)
+    ba = sig.bind(*args, **kw)
+    ba.apply_defaults()
+    names = list(sig.parameters)
+    last = max(names.index(k) for k in kw)
+    pos = [ba.arguments[n] for n in names[: last + 1]]
+    return lambda: f(*pos)
 
 
 def _reject_grad(case, ctx, idx, W) -> None:
